@@ -4,15 +4,16 @@
    fim/graph/abc_property_graph.py that keep the order of checks and primitive graph mutations; effects before
    a raise stay in the state).  `sg` is the graph component of the state, `sfresh` the uuid supply.
 
-   The FULL statement of the property
-       forall op g g' e,  run op g = (g', Err e)  ->  g' = g
-   is FALSE of the faithful model for four of the seven modelled calls (the code violates the property):
-   the `_refuted` theorems exhibit witnesses (replayed on the real code on every run), the `_partial`
-   theorems carry the hypothesis that excludes exactly the defect. *)
+   The statement of the property for a call `op`:
+       forall g g' e,  run op g = (g', Err e)  ->  g' = g
+   holds (after the fixes 16ce105, b5829c4, 2982a89, 1e03994 that this development prompted) for eight of the
+   ten modelled calls; it is still FALSE for add_component with duplicate caller-supplied child ids and for
+   add_switch without the rollback of proposed_fixes/C09-5.patch: `_refuted` theorems exhibit the witnesses
+   (replayed on the real code on every run), `_partial` theorems carry the hypothesis excluding the defect. *)
 From Coq Require Import List NArith Bool String.
 From FIM Require Import Base.Str Gen.T9Names Model.T9Graph Model.T9Ops Model.T9Check
      Proofs.T9Monad Proofs.T9Simple Proofs.T9Ext Proofs.T9Connect Proofs.T9Refuted Proofs.T9Atomic
-     Proofs.T9Component Proofs.T9CompFresh.
+     Proofs.T9Facility Proofs.T9Peer Proofs.T9Component Proofs.T9CompFresh Proofs.T9Final.
 Import ListNotations.
 Open Scope N_scope.
 
@@ -42,61 +43,128 @@ Theorem C09_add_interface_atomic : forall fl ns name node_id itype pure s s' e,
 Proof. exact add_interface_atomic_all. Qed.
 Print Assumptions C09_add_interface_atomic.
 
-(* ---- the service constructor's rollback (network_service.py:100-115).
+(* Topology.add_link (fix b5829c4: every interface is looked up before the Link node is added) *)
+Theorem C09_add_link_atomic : forall fl name node_id ltype ifs pure s s' e,
+  op_add_link fl name node_id ltype ifs pure s = (s', Err e) -> sg s' = sg s.
+Proof. exact add_link_atomic_all. Qed.
+Print Assumptions C09_add_link_atomic.
+Example C09_add_link_atomic_ex :
+  let r := op_add_link Experiment (S "l1") None (Some tPatch) (Some [mkIface 4 (S "nic1-p1"); mkIface 40 (S "gone")]) None
+                       (mkSt g_two_nodes supply) in
+  snd r = Err EQuery /\ sg (fst r) = g_two_nodes.
+Proof. exact ex_link_stale. Qed.
+Example C09_add_link_ok_ex :
+  let r := op_add_link Experiment (S "l1") None (Some tPatch) (Some [mkIface 4 (S "nic1-p1"); mkIface 8 (S "nic1-p1")]) None
+                       (mkSt g_two_nodes supply) in
+  snd r = Ok 50 /\ List.length (gedges (sg (fst r))) = 9%nat.
+Proof. exact ex_link_ok. Qed.
+
+(* ---- the service constructor's rollback (network_service.py:100-119, fix 16ce105).
    For every well-formed graph, every list of interface handles (each a ConnectionPoint of the graph or a
-   stale handle), whichever element of the list is the rejected one and for whatever reason the code
-   reports as TopologyException (not owned by a node, already connected - also by an earlier element of the
-   same list -, shared port on L2PTP, substrate flavour, missing service type): the graph is unchanged. *)
-Theorem C09_service_rollback : forall fl name node_id nstype ifs pure g fresh s',
+   stale handle), whichever element of the list is the rejected one and WHATEVER the exception
+   (TopologyException: not owned by a node, already connected - also by an earlier element of the same list -,
+   shared port on L2PTP, substrate flavour, missing service type; PropertyGraphQueryException: stale handle,
+   id already taken; ValueError: derived port or link name too long - raised after the ServicePort exists -;
+   exhausted id supply; invalid property; duplicate service name): the graph is unchanged. *)
+Theorem C09_service_rollback : forall fl name node_id nstype ifs pure g fresh s' e,
   wf_graph g = true -> ifaces_typed g ifs = true -> supply_apart node_id fresh ifs = true ->
-  op_add_service fl name node_id nstype ifs pure (mkSt g fresh) = (s', Err ETopology) ->
+  op_add_service fl name node_id nstype ifs pure (mkSt g fresh) = (s', Err e) ->
   sg s' = g.
 Proof. exact service_rollback. Qed.
 Print Assumptions C09_service_rollback.
 Example C09_service_rollback_ex_hyps :
-  wf_graph g_two_nodes = true /\ ifaces_typed g_two_nodes ex_ifs = true /\ supply_apart None supply ex_ifs = true.
-Proof. exact ex_service_rollback_hyps. Qed.
-Example C09_service_rollback_ex_runs :
+  wf_graph g_two_nodes = true /\ ifaces_typed g_two_nodes ex_ifs = true /\ supply_apart None supply ex_ifs = true
+  /\ ifaces_typed g_two_nodes ex_ifs_stale = true /\ supply_apart None supply ex_ifs_stale = true.
+Proof. exact ex_service_hyps. Qed.
+Example C09_service_rollback_ex_topology :
   let r := op_add_service Experiment (S "s1") None (Some tL2Bridge) ex_ifs None (mkSt g_two_nodes supply) in
   snd r = Err ETopology /\ sg (fst r) = g_two_nodes /\ List.length (sfresh (fst r)) = 3%nat.
 Proof. exact ex_service_rollback_runs. Qed.
+Example C09_service_rollback_ex_stale_handle :
+  let r := op_add_service Experiment (S "s1") None (Some tL2Bridge) ex_ifs_stale None (mkSt g_two_nodes supply) in
+  snd r = Err EQuery /\ sg (fst r) = g_two_nodes.
+Proof. exact ex_service_stale_runs. Qed.
+Example C09_service_rollback_ex_long_link_name :
+  let r := op_add_service Experiment (S "s1") None (Some tL2Bridge) [mkIface 4 (long_name 50)] None (mkSt g_long supply) in
+  snd r = Err EValue /\ sg (fst r) = g_long /\ List.length (sfresh (fst r)) = 5%nat.
+Proof. exact ex_service_long_runs. Qed.
 Example C09_service_ok_ex :
   let r := op_add_service Experiment (S "s1") None (Some tL2Bridge) (firstn 2 ex_ifs) None (mkSt g_two_nodes supply) in
   snd r = Ok 50 /\ List.length (gnodes (sg (fst r))) = 14%nat.
 Proof. exact ex_service_ok. Qed.
 
-(* FULL statement for the service constructor (any exception) - FALSE: the handler catches
-   TopologyException only.
-     forall ..., wf_graph g = true -> ifaces_typed g ifs = true -> supply_apart node_id fresh ifs = true ->
-       op_add_service fl name node_id nstype ifs pure (mkSt g fresh) = (s', Err e) -> sg s' = g        *)
-Theorem C09_service_atomic_refuted_stale_handle :
-  exists fl name nid ty ifs pure g fresh s',
-    wf_graph g = true /\ op_add_service fl name nid ty ifs pure (mkSt g fresh) = (s', Err EQuery) /\ sg s' <> g.
-Proof. exact service_atomic_refuted_query. Qed.
-Print Assumptions C09_service_atomic_refuted_stale_handle.
+(* ---- Topology.add_facility (fix 2982a89: the steps after add_node in a try whose handler removes the node
+   with its service and ports): atomic for every exception and every argument *)
+Theorem C09_add_facility_atomic :
+  forall fl name node_id d_ns d_int d_intk nstype pure_ns ports pure_single g fresh s' e,
+  wf_graph g = true ->
+  op_add_facility fl name node_id d_ns d_int d_intk nstype pure_ns ports pure_single (mkSt g fresh) = (s', Err e) ->
+  sg s' = g.
+Proof. exact add_facility_atomic. Qed.
+Print Assumptions C09_add_facility_atomic.
+Example C09_add_facility_atomic_ex :
+  let r := op_add_facility Experiment (S "fac1") None 0 0 [] tVLAN None
+             (Some [mkFacPort (S "pa") None; mkFacPort [] None]) None (mkSt g_two_nodes supply) in
+  snd r = Err EValue /\ sg (fst r) = g_two_nodes /\ List.length (sfresh (fst r)) = 4%nat.
+Proof. exact ex_facility_late. Qed.
+Example C09_add_facility_ok_ex :
+  let r := op_add_facility Experiment (S "fac1") None 0 0 [] tVLAN None
+             (Some [mkFacPort (S "pa") None; mkFacPort (S "pb") None]) None (mkSt g_two_nodes supply) in
+  snd r = Ok 50 /\ List.length (gnodes (sg (fst r))) = 13%nat.
+Proof. exact ex_facility_ok. Qed.
 
-Theorem C09_service_atomic_refuted_long_name :
-  exists fl name nid ty ifs pure g fresh s',
-    wf_graph g = true /\ op_add_service fl name nid ty ifs pure (mkSt g fresh) = (s', Err EValue) /\ sg s' <> g.
-Proof. exact service_atomic_refuted_value. Qed.
-Print Assumptions C09_service_atomic_refuted_long_name.
+(* ---- NetworkService.peer (fix 1e03994): atomic for every exception, for two NetworkService nodes *)
+Theorem C09_peer_atomic : forall fl a b pure g fresh s' e,
+  wf_graph g = true -> node_cls g a = Ok cNS -> node_cls g b = Ok cNS ->
+  op_peer fl a b pure (mkSt g fresh) = (s', Err e) -> sg s' = g.
+Proof. exact peer_atomic. Qed.
+Print Assumptions C09_peer_atomic.
+Example C09_peer_atomic_ex_hyps :
+  wf_graph g_two_services = true /\ node_cls g_two_services 30 = Ok cNS /\ node_cls g_two_services 31 = Ok cNS.
+Proof. exact ex_peer_hyps. Qed.
+Example C09_peer_atomic_ex :
+  let r := op_peer Experiment 30 31 None (mkSt g_two_services supply) in
+  snd r = Err ETopology /\ sg (fst r) = g_two_services /\ List.length (sfresh (fst r)) = 7%nat.
+Proof. exact ex_peer_late. Qed.
+Example C09_peer_ok_ex :
+  let r := op_peer Experiment 30 31 None (mkSt (mkGraph (firstn 2 (gnodes g_two_services)) []) supply) in
+  snd r = Ok tt /\ List.length (gnodes (sg (fst r))) = 5%nat /\ List.length (gedges (sg (fst r))) = 4%nat.
+Proof. exact ex_peer_ok. Qed.
 
-(* ---- Topology.add_link: the Link node is added before its edges *)
-Theorem C09_add_link_atomic_refuted :
-  exists fl name nid lt ifs pure g fresh s' e,
-    wf_graph g = true /\ op_add_link fl name nid lt ifs pure (mkSt g fresh) = (s', Err e) /\ sg s' <> g.
-Proof. exact add_link_atomic_refuted. Qed.
-Print Assumptions C09_add_link_atomic_refuted.
+(* ---- Topology.add_switch.  `rollback` = does the running library wrap the steps after add_node in the
+   try/except of proposed_fixes/C09-5.patch (read off its source by the harness).
+   With it: atomic as add_facility. *)
+Theorem C09_add_switch_atomic_with_rollback :
+  forall fl name node_id d_ns d_intk nstype pure_ns nports pure_port g fresh s' e,
+  wf_graph g = true ->
+  op_add_switch true fl name node_id d_ns d_intk nstype pure_ns nports pure_port (mkSt g fresh) = (s', Err e) ->
+  sg s' = g.
+Proof. exact add_switch_atomic_rb. Qed.
+Print Assumptions C09_add_switch_atomic_with_rollback.
+Example C09_add_switch_atomic_with_rollback_ex :
+  let r := op_add_switch true Experiment (S "sw1") None 0 [] tVLAN None 2 (Some EAssert) (mkSt g_two_nodes supply) in
+  snd r = Err EAssert /\ sg (fst r) = g_two_nodes.
+Proof. exact ex_switch_rb_late. Qed.
 
-(* ... atomic when every interface handle names a node of the graph (no stale handle) *)
-Theorem C09_add_link_atomic_partial : forall fl name node_id ltype ifs pure s s' e,
-  (forall l, ifs = Some l -> ifaces_exist (sg s) l) ->
-  op_add_link fl name node_id ltype ifs pure s = (s', Err e) -> sg s' = sg s.
-Proof. exact add_link_atomic_existing. Qed.
-Print Assumptions C09_add_link_atomic_partial.
-Example C09_add_link_atomic_partial_ex :
-  ifaces_exist g_two_nodes [mkIface 4 (S "nic1-p1"); mkIface 8 (S "nic1-p1")].
-Proof. exact ex_add_link_ok_hyp. Qed.
+(* Without it the full statement is FALSE: node, service, ports in three steps *)
+Theorem C09_add_switch_atomic_refuted :
+  exists fl name nid dns dk ty pns np pp g fresh s' e,
+    wf_graph g = true /\ op_add_switch false fl name nid dns dk ty pns np pp (mkSt g fresh) = (s', Err e) /\ sg s' <> g.
+Proof. exact add_switch_atomic_refuted. Qed.
+Print Assumptions C09_add_switch_atomic_refuted.
+
+(* ... atomic (either way) when it is the switch node itself that is rejected *)
+Theorem C09_add_switch_atomic_partial :
+  forall rb fl name node_id d_ns d_intk nstype pure_ns nports pure_port s s' e,
+  op_add_switch rb fl name node_id d_ns d_intk nstype pure_ns nports pure_port s = (s', Err e) ->
+  (forall s1 id, op_add_node fl name node_id (Some tSwitch) None s <> (s1, Ok id)) ->
+  sg s' = sg s.
+Proof. exact add_switch_first_step. Qed.
+Print Assumptions C09_add_switch_atomic_partial.
+Example C09_add_switch_ok_ex :
+  let r := op_add_switch false Experiment (S "sw1") None 0 [] tVLAN None 2 None (mkSt g_two_nodes supply) in
+  snd r = Ok 50 /\ List.length (gnodes (sg (fst r))) = 13%nat.
+Proof. exact ex_switch_ok. Qed.
 
 (* ---- Node.add_component: composite sliver adder, duplicate caller-supplied child ids are found late *)
 Theorem C09_add_component_atomic_refuted :
@@ -141,62 +209,3 @@ Example C09_add_component_atomic_partial_ex :
   ids_fresh g_two_nodes (component_ids None (Ok (mkCompSpec tNIC (Some (mkChildNs (S "x") tOVS None
                                          [mkChildIf (S "p") tSharedPort None])))) supply) = true.
 Proof. exact ex_ids_fresh. Qed.
-
-(* ---- Topology.add_facility: node, service, ports in three steps without rollback *)
-Theorem C09_add_facility_atomic_refuted :
-  exists fl name nid dns dint dk ty pns ports ps g fresh s' e,
-    wf_graph g = true /\ op_add_facility fl name nid dns dint dk ty pns ports ps (mkSt g fresh) = (s', Err e) /\ sg s' <> g.
-Proof. exact add_facility_atomic_refuted. Qed.
-Print Assumptions C09_add_facility_atomic_refuted.
-
-(* ... atomic when it is the facility node itself that is rejected (duplicate name or id, invalid name,
-   missing id in a substrate topology) *)
-Theorem C09_add_facility_atomic_partial :
-  forall fl name node_id d_ns d_int d_intk nstype pure_ns ports pure_single s s' e,
-  op_add_facility fl name node_id d_ns d_int d_intk nstype pure_ns ports pure_single s = (s', Err e) ->
-  (forall s1 id, op_add_node fl name node_id (Some tFacility) None s <> (s1, Ok id)) ->
-  sg s' = sg s.
-Proof. exact add_facility_first_step. Qed.
-Print Assumptions C09_add_facility_atomic_partial.
-
-(* ---- Topology.add_switch: same structure as add_facility *)
-Theorem C09_add_switch_atomic_refuted :
-  exists fl name nid dns dk ty pns np pp g fresh s' e,
-    wf_graph g = true /\ op_add_switch fl name nid dns dk ty pns np pp (mkSt g fresh) = (s', Err e) /\ sg s' <> g.
-Proof. exact add_switch_atomic_refuted. Qed.
-Print Assumptions C09_add_switch_atomic_refuted.
-
-Theorem C09_add_switch_atomic_partial :
-  forall fl name node_id d_ns d_intk nstype pure_ns nports pure_port s s' e,
-  op_add_switch fl name node_id d_ns d_intk nstype pure_ns nports pure_port s = (s', Err e) ->
-  (forall s1 id, op_add_node fl name node_id (Some tSwitch) None s <> (s1, Ok id)) ->
-  sg s' = sg s.
-Proof. exact add_switch_first_step. Qed.
-Print Assumptions C09_add_switch_atomic_partial.
-Example C09_add_switch_ok_ex :
-  let r := op_add_switch Experiment (S "sw1") None 0 [] tVLAN None 2 None (mkSt g_two_nodes supply) in
-  snd r = Ok 50 /\ List.length (gnodes (sg (fst r))) = 13%nat.
-Proof. exact ex_switch_ok. Qed.
-
-(* ---- NetworkService.peer: port on this service, port on the other service, link - no rollback; the refusal
-   of the second step is even reported as TopologyException *)
-Theorem C09_peer_atomic_refuted :
-  exists fl a b pure g fresh s',
-    wf_graph g = true /\ op_peer fl a b pure (mkSt g fresh) = (s', Err ETopology) /\ sg s' <> g.
-Proof. exact peer_atomic_refuted. Qed.
-Print Assumptions C09_peer_atomic_refuted.
-
-(* ... atomic when the first step (the port on the calling service: duplicate name, name too long, invalid
-   property, substrate topology) is the one refused *)
-Theorem C09_peer_atomic_partial : forall fl a b pure s s' e,
-  op_peer fl a b pure s = (s', Err e) ->
-  (forall an bn ca s1 id, node_name (sg s) a = Ok an -> node_name (sg s) b = Ok bn ->
-       service_iface_names (sg s) a = Ok ca ->
-       add_interface_cached fl a ca (an ++ dash ++ bn) None (Some tServicePort) pure s <> (s1, Ok id)) ->
-  sg s' = sg s.
-Proof. exact peer_first_step. Qed.
-Print Assumptions C09_peer_atomic_partial.
-Example C09_peer_ok_ex :
-  let r := op_peer Experiment 30 31 None (mkSt (mkGraph (firstn 2 (gnodes g_two_services)) []) supply) in
-  snd r = Ok tt /\ List.length (gnodes (sg (fst r))) = 5%nat /\ List.length (gedges (sg (fst r))) = 4%nat.
-Proof. exact ex_peer_ok. Qed.
